@@ -263,6 +263,21 @@ pub fn louvain_call(g: &G, call: &Value) -> Value {
     json!({"ans": ans, "comm": comm})
 }
 
+/// The order in which the first local-move phase visits the nodes for `seed`: the
+/// library shuffles the node ranks (rank = position of the name among the sorted
+/// names), listed in insertion order, with StdRng::seed_from_u64(seed).
+pub fn louvain_visit_order(g: &G, seed: u64) -> Vec<i32> {
+    use rand::seq::SliceRandom;
+    use rand::SeedableRng;
+    let names: Vec<i32> = g.get_all_node_names().into_iter().copied().collect();
+    let mut sorted = names.clone();
+    sorted.sort();
+    let mut ranks: Vec<usize> = names.iter().map(|n| sorted.iter().position(|x| x == n).unwrap()).collect();
+    let mut rng = rand::rngs::StdRng::seed_from_u64(seed);
+    ranks.shuffle(&mut rng);
+    ranks.into_iter().map(|r| sorted[r]).collect()
+}
+
 /// The list of Louvain calls made for a graph.
 pub fn louvain_calls(g: &G, seeds: i64, full: bool) -> Vec<Value> {
     let mut calls = vec![];
